@@ -225,11 +225,11 @@ fn judge(case: &c13::Case, run: &c13::Run, ctx: &mut CaseCtx) {
                     latest.push((r, *rt));
                 }
             }
-            let refresh_ok = open && latest.iter().any(|(r, rt)| r.rtype == *qtype && marks(*rt, r.ttl, false).contains(t));
+            let refresh_ok = open && latest.iter().any(|(r, rt)| r.rtype == *qtype && marks(*rt, r.ttl, true).contains(t));
             if refresh_ok {
                 continue;
             }
-            fail!("C19/hostname/extra-query", "{} query for {} at +{} ms is neither on the back-off schedule {:?}... of an open search nor the 80 % refresh of a cached address",
+            fail!("C19/hostname/extra-query", "{} query for {} at +{} ms is neither on the back-off schedule {:?}... of an open search nor a refresh (80-95 %) of a cached address",
                 type_name(*qtype), HOSTNAMES[host], t - T0, sched.iter().take(8).map(|x| x - T0).collect::<Vec<_>>());
         }
         for s in &sched {
